@@ -65,7 +65,7 @@ def candidates(rng, t, opts, st, depth):
             A((3, ['filter', 'modtruthy:%d' % _k(rng)]))
         A((1, ['clip', rng.randint(0, 4), rng.randint(5, 12)]))
         A((1, ['clip', None, rng.randint(5, 12)]))
-        A((1, ['assert_', 'gt:-1000']))
+        A((1, ['assert_', 'gt:-1000000000']))      # always holds: generated values stay far above (a failing assert stops the stream)
     elif t == 'f':
         A((3, ['map', 'trunc']))
         A((2, ['map', 'scale10']))
@@ -90,6 +90,7 @@ def candidates(rng, t, opts, st, depth):
         A((1, ['map', 'digest']))
     A((1, ['identity']))
     A((1, ['do_action']))
+    A((0.5, ['assert_', 'true']))
 
     if not stateless_only:
         # ---- stateful, both modes
